@@ -86,7 +86,7 @@ call failed, second store call failed). -/
 theorem pub_preserves_inv (c : Ctx) (a : Actor) (tn : TName) (content : String) (head : List (String × String)) (noEcho : Bool)
     (t : Topic) (r : TopicRow) (g : Guards c a tn t) (hrow : c.w.row? tn = some r) (hs : StoreInv r) (hl : LiveInv t r) :
     ∃ t' r', (c.opPub a tn content head noEcho).w.live? tn = some t' ∧ (c.opPub a tn content head noEcho).w.row? tn = some r' ∧
-      StoreInv r' ∧ LiveInv t' r' ∧ t.lastId ≤ t'.lastId := by
+      StoreInv r' ∧ LiveInv t' r' ∧ t.lastId ≤ t'.lastId ∧ ∃ l, r'.msgs = r.msgs ++ l := by
   have htn := live_name _ _ _ g.live
   rw [opPub_guarded c a tn content head noEcho t g.att g.live g.act g.ro g.wr]
   generalize hsv : c.saveMessage tn { seq := t.lastId + 1, sender := a.uid, head := pubHead a head, content := some content }
@@ -97,7 +97,7 @@ theorem pub_preserves_inv (c : Ctx) (a : Actor) (tn : TName) (content : String) 
     simp only
     obtain ⟨_, _, _, hlv, _, hrw⟩ := saveMessage_none c c1 tn _ _ hsv
     obtain ⟨r', hr', hm, hq⟩ := hrw r hrow
-    refine ⟨t, r', by rw [emit_w, hlv]; exact g.live, by rw [emit_w]; exact hr', ?_, ?_, Int.le_refl _⟩
+    refine ⟨t, r', by rw [emit_w, hlv]; exact g.live, by rw [emit_w]; exact hr', ?_, ?_, Int.le_refl _, ⟨[], by rw [hm]; simp⟩⟩
     · refine ⟨by rw [hm]; exact hs.1, ?_⟩
       intro m hmm; rw [hm] at hmm
       rcases hq with hq | hq
@@ -117,7 +117,7 @@ theorem pub_preserves_inv (c : Ctx) (a : Actor) (tn : TName) (content : String) 
     obtain ⟨hw', _, _, _⟩ := deliverPub_eq c1 t a { seq := t.lastId + 1, sender := a.uid, head := pubHead a head, content := some content } mk noEcho
     have hlive' := live_setLive c1.w (pubTopic t a { seq := t.lastId + 1, sender := a.uid, head := pubHead a head, content := some content } mk)
     rw [pubTopic_name, htn] at hlive'
-    refine ⟨_, r', by rw [hw']; exact hlive', by rw [hw']; exact hr', ?_, ?_, ?_⟩
+    refine ⟨_, r', by rw [hw']; exact hlive', by rw [hw']; exact hr', ?_, ?_, ?_, ⟨_, hm⟩⟩
     · constructor
       · rw [hm, List.map_append]
         apply pairwise_snoc _ _ hs.1
